@@ -215,6 +215,8 @@ DEFECT_SETS_C02 = [
 
 
 C01_SERVE = [
+    # routes registered in a non-canonical spelling (blanks after ':' and ','): `route` is the canonical text
+    ["R GET /u/{id:/[0-9]+/}", "R GET /u/{name:   **,capture:  2}/x", "R GET /{a:/x/,b:  /y+/}"],
     ["R GET /{**}", "R GET /{a}/{b}", "R GET /a/b"],
     ["R GET /u/{id}/@", "R GET /u/{m: **}", "R GET /{r: /[a-z]+/}"],
     ["R GET /{m: **, capture: 2}/e", "R GET /o/?{p}", "R GET /"],
@@ -433,6 +435,8 @@ C10_PROGS = [
     (["R GET /q/r", "R GET /q/?r"], "GET", 5),
     (["R GET /q/?r", "R GET /q/r", "H 0 X-K=v"], "GET", 5),
     (["R GET /a/?", "R GET /a/"], "GET", 4),
+    # Headers() with no pairs on routes that must stay off the fast paths
+    (["R GET /?u", "H 0 "], "GET", 3), (["R GET /a/?b", "H 0 X-K=v", "H 0 "], "GET", 5), (["R GET /q", "H 0 X-K=v", "H 0 ", "R GET /{x}"], "GET", 3),
     # several methods registered at once where only some of them are shadowed by an earlier optional route
     (["R POST /?u", "R * /u"], "?", 2),
     (["R POST /q/?r", "R GET,POST,PUT /q/r"], "?", 4),
@@ -512,7 +516,7 @@ SPECS["C03"] = Spec(
 
 
 # --------------------------------------------------------------------------- C14
-C14_SHAPES = ["string", "bytes", "error", "int-string", "teapot", "int-bytes", "int-error", "string-error", "bytes-error", "ptr-string", "int-ptr-string", "custom", "late-custom"]
+C14_SHAPES = ["string", "bytes", "error", "int-string", "teapot", "int-bytes", "int-error", "string-error", "bytes-error", "ptr-string", "int-ptr-string", "custom", "custom-zero", "late-custom"]
 
 
 def c14_jobs(tier, seed):
@@ -599,6 +603,7 @@ C12_ROUTES = [
     "/webapi/users", "/u/{name}", "/u/{id: /[0-9]+/}", "/u/{name}/?events", "/a_{id: /[0-9]+/}_{page: /[\\\\w]+/}.{ext: /diff|patch/}",
     "/{paths: **}/files", "/g/{name: **, capture: 2}", "/{**}", "/p/{y: /[0-9]{4}/}-{m}-{d}.html", "/x/{a}/{b}/{c}",
     "/u/?{opt}", "/{a}{b}", "/s/{x: /a+/, y: /b+/}",
+    "/webapi/?users", "/?home", "/a/b/?c", "/a/", "/",
 ]
 C12_ROUNDTRIP = [
     ["/u/{name}", "/u/{name2}/?ev"], ["/{a: /[0-9]+/}-{b}", "/{m: **}"], ["/{m: **}/e/{n: **, capture: 2}"], ["/a/?{o}", "/{x}/{y}"],
@@ -641,7 +646,7 @@ def c11_jobs(tier, seed):
         masks = [("111111010", 0), ("111100110", 1), ("001111001", 1), ("101000111", 1), ("010110101", 0), ("111111111", 0)]
     jobs = [{"pkg_short": "flamego", "body": "VH_C11_program", "params": {"mask": m, "lens": l}, "max_paths": 3000000} for m, l in masks]
     jobs.append({"pkg_short": "flamego", "body": "VH_C11_program", "max_paths": 3000000,
-                 "params": {"mask": "0100001001" if tier == "quick" else "0110011001", "lens": 0}})
+                 "params": {"mask": "01000010011" if tier == "quick" else "01100110011", "lens": 0}})
     # group prefixes that share characters with each other and with the route paths, an empty prefix, a bind in a prefix
     for g1, g2 in (("/gh", "/h"), ("/p", "/pp"), ("/g", ""), ("/{g}", "/hg")):
         jobs.append({"pkg_short": "flamego", "body": "VH_C11_program", "max_paths": 3000000,
@@ -658,7 +663,7 @@ SPECS["C11"] = Spec(
         "same chosen route / order / parameters for arbitrary requests then follows from C01-C03, decided on flat registrations (composition is an argument, not a query)",
         "a group function that panics is outside the claim",
     ],
-    bounds=lambda tier: {"nesting": 3, "statements": "10 template statements; per job a subset (mask) is symbolic, the others off", "handler_list_len": "0..2 (jobs with lens=1) else 1", "spare_capacity": "0 or 2 (symbolic)"},
+    bounds=lambda tier: {"nesting": 3, "statements": "11 template statements; per job a subset (mask) is symbolic, the others off", "handler_list_len": "0..2 (jobs with lens=1) else 1", "spare_capacity": "0 or 2 (symbolic)"},
     rule="every combination of statement guards, list lengths, capacity and AutoHead toggles of the template",
 )
 
@@ -671,7 +676,7 @@ C08_SEGS = ["N%d", "N%d", "{N%d}", "{N%d: /x+/}", "{N%d: /[0-9]/}-{N%d: /(y)/}",
 def c08_history(rng, nroutes=3, nslots=4):
     texts = []
     for _ in range(rng.randint(1, nroutes)):
-        n = rng.randint(1, 3)
+        n = rng.randint(1, 3) if rng.random() < 0.8 else rng.randint(4, 5)
         opt = n - 1 if rng.random() < 0.3 else -1
         if opt >= 0 and rng.random() < 0.15:
             opt = rng.randrange(n)
@@ -698,6 +703,9 @@ C08_CURATED = [
     # expressions that do not compile on their own but repair each other once assembled into one pattern
     ["/{N0: /[x/}{N1: /y]/}"], ["/{N0: /[x/, N1: /y]/}"], ["/{N0: /x)/}-{N1: /(y/}"],
     ["/N0/{N1: /[x/}{N2}{N3: /y]/}", "/N0"],
+    # longer routes: two match-alls before the end behind / around other dynamic segments
+    ["/{N0}/{N1: **}/x/{N2: **}/y"], ["/{N0: /x+/}/{N1: **}/{N2: **}/y"], ["/{N1: **}/x/{N0}/{N2: **}/y"], ["/x/{N0}/y/{N1: **}/{N2: **}/{N3}"],
+    ["/{N0}/{N1}/{N2: **}/{N3: **}"], ["/{N0}/{N1: **}/x/{N2: **}"], ["/{N0}/x/{N1}/y/{N0}"], ["/{N0}/{N1: **}/x/y/{N1}"],
     # the short form of a root-level optional route is "/"
     ["/?{N0: /x+/}", "/"], ["/", "/?"], ["/", "/?N0"], ["/?{N0: **}", "/", "/N1"], ["/{N1: **}/N1", "/?{N2: /x+/}", "/"],
 ]
@@ -724,7 +732,7 @@ SPECS["C08"] = Spec(
         "segments that are none of the four documented kinds are left out of the shapes; rejection of text outside the grammar is C06's, unknown methods are decided at router level (C07 runs with symbolic methods and this property's router jobs)",
         "reachability of accepted routes by their own instances is decided by C01 (iff direction) on route sets of the same family",
     ],
-    bounds=lambda tier: {"history": "<=3 routes x <=3 segments", "names": "4 slots, each any of a..d", "curated_histories": len(C08_CURATED),
+    bounds=lambda tier: {"history": "<=3 routes x <=3 segments (one draw in five: 4-5 segments)", "names": "4 slots, each any of a..d", "curated_histories": len(C08_CURATED),
                          "seeded_histories": 60 if tier == "quick" else 600},
     rule="one job per history shape; all assignments of names to slots",
 )
@@ -825,9 +833,33 @@ C06_ROUTES = ["/a", "/a/?b", "/{x}", "/a{x}b", "/{x: /r/}", "/{x: **}", "/{x: **
               "/{**}/{x:    /r/,y:/s/}"]
 
 
+C06_ELEMS = ["a", "{x}", "{x: l}", "{x: /r/}", "{x: l, y: m}", "{x: l, y: /s/}", "{x: /r/, y: m}", "{x: /r/, y: /s/}"]
+
+
+def c06_shapes(tier):
+    """Every segment structure with up to 2 (quick) / 3 (thorough) elements over the eight element kinds
+    (no two adjacent identifiers: they would be one token), with and without the optional marker,
+    alone and behind / in front of a second segment."""
+    import itertools
+    out = []
+    for k in range(0, 3 if tier == "quick" else 4):
+        for combo in itertools.product(range(len(C06_ELEMS)), repeat=k):
+            if any(combo[i] == 0 and combo[i + 1] == 0 for i in range(k - 1)):
+                continue
+            seg = "".join(C06_ELEMS[c] for c in combo)
+            out.append("/" + seg)
+            out.append("/?" + seg)
+            if k <= 1 or tier != "quick":
+                out.append("/b/" + seg)
+                out.append("/" + seg + "/{z: /t/}")
+    return sorted(set(out))
+
+
 def c06_jobs(tier, seed):
-    return [{"pkg_short": "route", "body": "VH_C06_render", "params": {"route": r, "toklen": 2 if tier == "quick" else 3}, "max_paths": 300000}
+    jobs = [{"pkg_short": "route", "body": "VH_C06_render", "params": {"route": r, "toklen": 2 if tier == "quick" else 3}, "max_paths": 300000}
             for r in C06_ROUTES]
+    jobs += [{"pkg_short": "route", "body": "VH_C06_render", "params": {"route": r, "toklen": 1, "fixed": 1}, "max_paths": 1000} for r in c06_shapes(tier)]
+    return jobs
 
 
 def c06_post(tier, seed):
@@ -839,7 +871,7 @@ SPECS["C06"] = Spec(
     "C06", ["route/parse.go", "route/oracle.go", "route/c06.go"], c06_jobs, post=c06_post,
     assumptions=[
         "REDUCED CLAIM (DESIGN.md §4): totality and acceptance are not decided on participle's code (reflection-built parser, not executable by the interpreter). Decided instead:",
-        "(a) rendering clause on the real code: Segment.String/Route.String executed from SSA on ASTs of 9 derivation shapes with every token's content symbolic (any bytes), against the canonical concatenation of the statement; stable under the sync.Once cache",
+        "(a) rendering clause on the real code: Segment.String/Route.String executed from SSA on ASTs of 9 derivation shapes with every token's content symbolic (any bytes of any length up to the bound), and on EVERY segment structure with up to 2 (quick) / 3 (thorough) elements over the eight element kinds (identifier, {name}, one- and two-parameter lists with literal and regex values), with and without the optional marker, alone and next to a second segment, one symbolic byte per token, against the canonical concatenation of the statement; stable under the sync.Once cache",
         "(b) acceptance on a translation of flamego's own declarative artefacts, re-extracted from source each run (go/ast): the lexer.Rules literal gives the character classes of Ident and Regex; the parser struct tags give a token-level grammar; the README EBNF is parsed into the same two levels. The solver (z3-new 5.1.0, regex theory; z3 4.8.12 second opinion) decides class equality and token-level language equality up to the stated length, modulo what the stateful lexer can emit (adjacent Ident tokens; ':' after a value without ',' - two forbidden patterns derived by reading the rules)",
         "(b') character level, every byte string up to the bound: the lexer's state machine exactly as written in the source (states, rule order, first-match, greedy `+` tokens, push/pop actions on a stack of depth <= length+1) is composed with the Glushkov automaton of the struct-tag grammar and compared with the Glushkov automaton of the README <route> rule; one QF_BV query per length and direction over symbolic bytes (as indices into the coarsest partition of the byte alphabet respecting every character class in sight); unsat for all lengths = the two languages agree on every string up to the bound. The automata are also run concretely and must agree with the real parser / the README regular expression on every sample, and the solver's evaluation of concrete strings must agree with them (self-check), else the run is inconclusive",
         "(c) every witness, every class difference and >= 500 solver-drawn strings (inside and outside both languages, plus arbitrary bytes) are run through the real Parser.Parse: no panic; accepted iff in the README language; rendering equals the input with spacing normalised; the canonical form parses and renders to itself; the AST equals that of an independent recursive-descent parser. A faithful simulation of the stateful lexer (from the extracted rules) + token grammar must agree with the real parser on all of them, otherwise the run is inconclusive",
